@@ -7,6 +7,16 @@ collaborators are used through their contracts (caller checked against callee):
   * shared CRC16 unit (C30) as wired in USBDevice on the receive side (C02/USBDevice/crc_wiring): ghost register `crc`.
 The endpoint-number condition of the statement ("addressed to the device's control endpoint") is applied one level up, in
 USBControlEndpoint (`received & endpoint_targeted`), and is covered by the C07 contract.
+
+Caller side ("call" / wiring obligations; the requires above are what the parents must discharge):
+  * USBControlEndpoint/wiring_setup_decoder — on the real USBControlEndpoint: the real decoder instance's speed, tokenizer
+    (every field), timer (tx_allowed/tx_timeout/rx_timeout, start) and CRC (crc, start) ports are the EndpointInterface's, it
+    is built on the endpoint's UTMI bus with the endpoint's number, its ack reaches handshakes_out.ack and its packet record
+    (every field) reaches the request handlers (c10_unsupported_requests_stall.control_endpoint_obligations);
+  * USBDevice/wiring_setup_decoder_utmi (thorough: + _ulpi, 60 MHz HS-capable) — end to end inside the real USBDevice: the
+    decoder's speed is the one the device timer and token detector use, its tokenizer record is the token detector's, its
+    tx_allowed is the device timer's minimum rx-to-tx strobe and its start restarts that timer, its crc is the shared CRC16
+    unit's output and its start reseeds it, and all of them watch the one UTMI receive stream (`device_hookup`).
 """
 import z3
 from hwv.contract import B, bvc, bits, bv1, zx
@@ -145,5 +155,73 @@ def dh_active(ts, dh, i):
     return regs[i]
 
 
+def device_hookup(c, kind="utmi"):
+    """call obligation, end to end: inside the real USBDevice (kind "utmi": raw UTMI bus, 12 MHz, always full speed; "ulpi":
+    ULPI PHY behind the real UTMITranslator, 60 MHz, high-speed capable; standard control endpoint + a bulk IN and a bulk
+    OUT endpoint) the ports of the real USBSetupDecoder instance are driven by the device's token detector, inter-packet
+    timer, CRC16 unit and speed -- through USBDevice.elaborate, USBEndpointMultiplexer and USBControlEndpoint.elaborate.
+    These are the collaborators the decoder contract above uses through `require`s (token_detector_contract,
+    crc_unit_contract) and free inputs (tx_allowed, speed)."""
+    from luna.gateware.usb.usb2.device import USBDevice
+    from luna.gateware.usb.usb2.packet import USBTokenDetector, USBDataPacketReceiver
+    from luna.gateware.usb.usb2.endpoints.stream import USBStreamInEndpoint, USBStreamOutEndpoint
+    from .c10_unsupported_requests_stall import small_descriptors, flat, wires
+    if kind == "utmi":
+        utmi = UTMIInterface()
+        d = USBDevice(bus=utmi)
+        ports = {n_: getattr(utmi, n_) for n_ in ("rx_data", "rx_active", "rx_valid", "tx_ready", "line_state", "session_end")}
+    else:
+        from amaranth.hdl.rec import Record
+        bus = Record([('data', [('i', 8), ('o', 8), ('oe', 1)]), ('clk', [('o', 1)]), ('nxt', [('i', 1)]),
+                      ('stp', [('o', 1)]), ('dir', [('i', 1)]), ('rst', [('o', 1)])])
+        d = USBDevice(bus=bus, handle_clocking=False)
+        ports = {"data_i": bus.data.i, "nxt": bus.nxt.i, "dir": bus.dir.i}
+    d.add_standard_control_endpoint(small_descriptors())
+    ep_in, ep_out = USBStreamInEndpoint(endpoint_number=1, max_packet_size=8), USBStreamOutEndpoint(endpoint_number=1, max_packet_size=8)
+    d.add_endpoint(ep_in)
+    d.add_endpoint(ep_out)
+    ports.update({"connect": d.connect, "low_speed_only": d.low_speed_only, "full_speed_only": d.full_speed_only, "speed": d.speed,
+                  "in_valid": ep_in.stream.valid, "in_payload": ep_in.stream.payload, "in_first": ep_in.stream.first,
+                  "in_last": ep_in.stream.last, "out_ready": ep_out.stream.ready})
+    ts = c.unit(d, ports)
+    of, same = wires(ts)
+    sd = ts.instance(USBSetupDecoder)
+    dh = ts.instance(USBDataPacketDeserializer)
+    td = ts.instance(USBTokenDetector)
+    rxr = ts.instance(USBDataPacketReceiver)
+    speed = ts.outputs["speed"]
+    c.lemma("setup_decoder_speed_is_the_timers_and_the_devices", z3.And(same(sd.speed, speed), ts.sig("timer.speed") == speed,
+                                                                       of(td.speed) == speed),
+            clause="the decoder's 'high speed: ACK at once' shortcut, the inter-packet timer and the token detector all use the "
+                   "device's current speed")
+    tdi, sdt = flat(td.interface), flat(sd.tokenizer)
+    c.lemma("setup_decoder_tokenizer_is_the_token_detector", z3.And(*[same(sdt[f], of(tdi[f])) for f in sdt]),
+            clause="every field of the decoder's tokenizer record is the device's token detector's (require token_detector_contract)")
+    c.lemma("setup_decoder_timer_is_the_device_timer",
+            z3.And(same(sd.timer.tx_allowed, ts.sig("timer.rx_to_tx_at_min")), same(sd.timer.tx_timeout, ts.sig("timer.rx_to_tx_at_max")),
+                   same(sd.timer.rx_timeout, ts.sig("timer.tx_to_rx_timeout"))),
+            clause="the decoder's 'response allowed' is the device inter-packet timer's minimum rx-to-tx delay strobe (C05), "
+                   "not the maximum / timeout strobes")
+    c.ensure("setup_decoder_start_restarts_the_device_timer", z3.Implies(of(sd.timer.start) == 1, c.nx(ts.sig("timer.counter")) == 0),
+             clause="the gap is measured by the device timer from the end of the SETUP data packet (the decoder's start restarts it)")
+    c.lemma("setup_decoder_crc_is_the_shared_crc_unit", z3.And(same(sd.data_crc.crc, of(rxr.data_crc.crc)), same(dh.data_crc.crc, of(rxr.data_crc.crc))),
+            clause="the decoder's deserializer checks against the device's shared CRC16 unit output (the one the data receiver reads; "
+                   "C30/C02 wiring)")
+    c.ensure("setup_decoder_start_reseeds_the_shared_crc_unit", z3.Implies(of(sd.data_crc.start) == 1, c.nx(ts.sig("data_crc.crc")) == 0xFFFF),
+             clause="start reseeds the shared CRC unit (require crc_unit_contract)")
+    c.lemma("shared_crc_unit_and_decoder_watch_the_same_bus",
+            z3.And(ts.sig("data_crc.rx_data") == of(d.utmi.rx_data), ts.sig("data_crc.rx_valid") == of(d.utmi.rx_valid),
+                   z3.BoolVal(sd.utmi is d.utmi and dh.utmi is d.utmi and td.utmi is d.utmi)),
+            clause="CRC unit, token detector and setup decoder all watch the device's one UTMI receive stream")
+    c.inv("no_state_needed", z3.BoolVal(True))
+
+
 def contracts(tier):
     yield ("USBSetupDecoder", "", decoder)
+    # caller side: the real USBControlEndpoint connects its setup decoder the way the contract above assumes
+    from .c10_unsupported_requests_stall import make_control_endpoint_wiring
+    yield ("USBControlEndpoint", "wiring_setup_decoder", make_control_endpoint_wiring("standard", {"setup_decoder"}, ep=0))
+    yield ("USBDevice", "wiring_setup_decoder_utmi", device_hookup)
+    if tier == "thorough":
+        yield ("USBDevice", "wiring_setup_decoder_ulpi", lambda c: device_hookup(c, "ulpi"))
+        yield ("USBControlEndpoint", "wiring_setup_decoder_acm_ep2", make_control_endpoint_wiring("acm", {"setup_decoder"}, ep=2))
